@@ -370,6 +370,24 @@ def ops():
     add("pc.vertices", b_polycoll3d, lambda s: s["pc"].vertices)
     add("pc.edges", b_polycoll3d, lambda s: s["pc"].edges)
     add("pc[0]", b_polycoll3d, lambda s: s["pc"][0])
+    # ---- constructors taking geometric objects (round 4): building a transformation / quadric / polytope from objects must not change them
+    from geometer import translation, rotation, scaling, reflection, Transformation, Circle, Sphere, Conic, Segment, Polygon, Line
+
+    def _ang(s):
+        return 0.75
+
+    add("translation(p)", b_points2, lambda s: translation(s["p"]))
+    add("translation(p)3d", b_3d_basic, lambda s: translation(s["p"]))
+    add("rotation(a,axis=p)3d", b_3d_basic, lambda s: rotation(_ang(s), axis=s["p"]), max_paths=800)
+    add("reflection(l)", b_point_line, lambda s: reflection(s["l"]))
+    add("reflection(e)3d", b_3d_basic, lambda s: reflection(s["e"]))
+    add("Circle(p,2)", b_points2, lambda s: Circle(s["p"], 2))
+    add("Sphere(p,2)3d", b_3d_basic, lambda s: Sphere(s["p"], 2))
+    add("Segment(p,q)", b_points2, lambda s: Segment(s["p"], s["q"]))
+    add("Line(p,q)", b_points2, lambda s: Line(s["p"], s["q"]))
+    add("Polygon(p,q,r)", b_points3, lambda s: Polygon(s["p"], s["q"], s["r"]))
+    add("Conic.from_lines(l,m)", b_lines2, lambda s: Conic.from_lines(s["l"], s["m"]))
+    add("t.apply-chain", b_transform_objs, lambda s: (s["t"] * s["p"], s["t"].inverse() * s["p"]))
     return o
 
 
